@@ -6,6 +6,7 @@ unchanged, and that tempting wrong actions change it.  Binding (R): action seque
 synthetic file triples; all results are compared with the baseline presentation; for ReorderVol 'rejected' is also accepted.
 """
 import logging
+from pathlib import Path
 
 import numpy
 
@@ -136,6 +137,64 @@ def shipped(ctx, rng, wd):
 
     return nrun
 
+def optimised_interpreter(ctx, rng, wd, ds):
+    """'Either rejected or the same result' does not depend on how the interpreter was started: the volume blocks reversed and shuffled,
+    calculated in a child process run with `python -O` (assert statements and __debug__ blocks stripped)."""
+    import os
+    import subprocess
+    import sys
+    from cv.core import REPO
+    if ds is None:
+        return
+    prog = ("import sys, numpy, logging\n"
+            "sys.path.insert(0, sys.argv[3])\n"
+            "logging.getLogger('cij').setLevel(logging.CRITICAL)\n"
+            "from cv.synth import run\n"
+            "calc = run(sys.argv[1])\n"
+            "snap = {}\n"
+            "for k in calc.modulus_keys:\n"
+            "    snap['c%d%ds' % k.voigt] = numpy.asarray(calc.modulus_adiabatic[k])\n"
+            "    snap['c%d%dt' % k.voigt] = numpy.asarray(calc.modulus_isothermal[k])\n"
+            "numpy.savez(sys.argv[2], **snap)\n"               # what the volume base delivers is on record before the pressure base is asked
+            "for n in ('bulk_modulus_voigt_reuss_hill', 'primary_velocities', 'volumes'):\n"
+            "    snap['tp_' + n] = numpy.asarray(getattr(calc.pressure_base, n))\n"
+            "numpy.savez(sys.argv[2], **snap)\n")
+    env = dict(os.environ, PYTHONPATH=str(REPO) + os.pathsep + os.environ.get("PYTHONPATH", ""), PYTHONWARNINGS="ignore")
+    harness = str(Path(__file__).resolve().parents[1])
+    nv = ds.nv
+    results = {}
+    for tag, pres in (("as_listed", None), ("volumes reversed", {"vol_perm": list(range(nv))[::-1]}),
+                      ("volumes shuffled", {"vol_perm": [int(i) for i in rng.permutation(nv)]})):
+        d = wd.sub("opt_" + tag.replace(" ", "_"))
+        sp = ds.write(d, pres=pres)
+        out = d / "snap.npz"
+        pr = subprocess.run([sys.executable, "-O", "-c", prog, str(sp), str(out), harness], capture_output=True, text=True, timeout=900, env=env)
+        ctx.count({"python_O": tag})
+        if not out.exists():
+            if pres is None:
+                ctx.cov["python_O_baseline_failed"] = pr.stderr[-300:]
+                return                                  # the baseline presentation itself does not run under -O: nothing to compare (C12's business)
+            continue                                    # rejected: allowed for re-ordered volume blocks
+        with numpy.load(out) as z:
+            results[tag] = {k: z[k] for k in z.files}
+    base = results.get("as_listed")
+    if base is None:
+        return
+    for tag, snap in results.items():
+        if tag == "as_listed":
+            continue
+        for k, a in base.items():
+            b = snap.get(k)
+            if b is None:
+                continue                                # (not delivered: the child stopped with an error before it got there)
+            scale = float(numpy.nanmax(numpy.abs(a))) or 1.0
+            if b.shape != a.shape or not numpy.allclose(a, b, rtol=0, atol=TOL_SYNTH * scale, equal_nan=True):
+                dev = float(numpy.nanmax(numpy.abs(a - b))) / scale if b.shape == a.shape else float("nan")
+                ctx.violation(f"under `python -O`, the phonon file with its {tag} is accepted and changes {k} by {dev:.3g} (relative to its scale)",
+                              {"presentation": tag, "quantity": k, "dev": dev}, {"actions": "ReorderVol", "clause": "differs", "reorder": True, "python_O": True})
+                break
+
+
 def main(ctx, replay=None):
     logging.getLogger("cij").setLevel(logging.CRITICAL)
     rng = numpy.random.default_rng(ctx.seed + 1313)
@@ -211,6 +270,7 @@ def main(ctx, replay=None):
                         ctx.violation(f"re-presentation {names} changes {k} by {dev:.3g} (relative to its scale)", {**case, "quantity": k, "dev": dev},
                                       {**sig, "clause": "differs", "reorder": reorder})
                         break
+        optimised_interpreter(ctx, rng, wd, sets[0] if sets else None)
         nbase += shipped(ctx, rng, wd)
         if nbase == 0:
             raise MachineryError(f"no data set has a baseline run: {ctx.cov.get('baseline_failed')}")
